@@ -14,7 +14,8 @@ import Apko.Model.Confine
 * `cf.dirfs <op>… GO=<go>`                            a sequence of `dirFS` calls in the canary tree; answer
       `r1/diff1;r2/diff2;…` (result class and outside diff per call), verdict = no outside diff in Go's answer
 * `cf.archeffect <why> <arch> <diff>`                  oracle only (commands run with a hostile architecture string): pass iff
-      the diff is empty; class F18f iff the architecture contains a separator
+      the diff is empty (F18f is repaired: no listed class)
+* `cf.archname <s>`                                    `types.ParseArchitecture(s).ToAPK()`; oracle: one plain path element
 * `cf.effect <why> <lexical 0|1> <diff>`              oracle only (apko-level cases): pass iff the diff is empty
 
 All strings are hex.  Ops: `method,name,old,data,flag,perm,mtime,uid,gid,dev`.
@@ -152,11 +153,17 @@ def handle (args : List String) : Option String :=
         some (impl ++ "\t" ++ (if bad then "fail:outside-effect" else "pass") ++ "\t" ++ (if bad then cls else "-"))
     | [] => none
   | ["cf.archeffect", why, arch, diff] =>
-    -- F18f: an architecture string with a separator is not one component of the names derived from it
-    -- (`arch_paths_within_partial` needs '/' ∉ arch; `not_arch_paths_within` is the witness)
+    -- F18f (repaired): every name derived from an architecture is made of `toAPK`, one plain element for every
+    -- string (`arch_paths_within`); an outside effect of a command run with a hostile architecture is a violation
+    let _ := arch
     let bad := diff ≠ ""
-    let cls := if (unhexS arch).contains '/' then "F18f" else "unlisted"
+    let cls := "unlisted"
     some ("-\t" ++ (if bad then "fail:" ++ why else "pass") ++ "\t" ++ (if bad then cls else "-"))
+  | ["cf.archname", a] =>
+    let v := toAPK (unhexS a)
+    let impl := hexS v
+    let spec := if !v.contains '/' && v ≠ dot && v ≠ dotdot then impl else "not-one-path-element"
+    some <| triple impl spec "unlisted"
   | ["cf.effect", why, lexical, diff] =>
     let bad := diff ≠ ""
     let cls := if lexical = "1" then "F18c" else "unlisted"
